@@ -22,6 +22,7 @@ def run(prog: Program, rep: Report, tier: str) -> None:
     rep.rule('C04-D3', 'pointer order contract: the producer indexes the einsum by edge.nodes for the edges of rule.rhs.edges() in iteration order, unfiltered; the consumer walks rule.rhs.edges() x e.nodes in the same nesting and consumes the next pointer entry exactly when the node has no value yet; externals are the outputs on both sides')
     rep.rule('C04-D5', 'component-local state: every name the per-SCC loop of viterbi() binds and reads (the trivial/iterated flag, x, x1, the pointer tables of the component) is bound on all paths of the same iteration before it is read, so nothing decided for one component leaks into the next (inner for-loops assumed to run at least once: kmax >= 1)')
     rep.rule('C04-D4', 'one back-pointer entry per rule index: F_viterbi appends to rhs_pointer[n] on every iteration of the rule loop (also for rules that contribute nothing), and records the rule index where the new rule is strictly better')
+    rep.rule('C04-D6', 'Jacobi sweep: the iterate F_viterbi builds is written only; no product of the same sweep receives it (a partial maximum over the rules seen so far must not shadow the previous iterate, or the pointers describe a derivation of another weight)')
     rep.not_decided += ['optimality of the returned derivation', 'equality with the Viterbi-semiring sum-product', 'tie handling', 'convergence of the max-plus fixed-point iteration']
     stack_guards(rep, prog)
     unpack_guards(rep, prog)
@@ -30,6 +31,8 @@ def run(prog: Program, rep: Report, tier: str) -> None:
     pointer_order(rep, prog)
     pointer_entries(rep, prog)
     negative_expand(rep, prog)
+    from ..rules.loopstate import check_jacobi_sweep
+    rep.floor('C04-D6', check_jacobi_sweep(rep, 'C04-D6 jacobi-sweep', prog.func(VT, 'F_viterbi')), 1)
     # D5: the per-component loop of viterbi() decides trivial / iterated and collects x1, lp1, rp1 per component
     from ..rules.loopstate import check_iteration_local
     vf = prog.func('fggs.viterbi', 'viterbi')
